@@ -35,10 +35,13 @@ LEVEL_TEXT = ("Machine-checked Coq theorems over GoLite networks of the parallel
               "callers of the atomic ReadOne (conservation for any number of them); reading with Next;Value through the shared value field loses one "
               "item and duplicates another with two readers.")
 LEVEL_NOTE = ("Partial in DESIGN's sense: channel hand-off atomicity, WaitGroup, context and goroutine exit are model primitives. "
-              "C01_complete (un-aborted terminated run delivers a permutation) is proved in full for the single-pump constructs and for GenerateParallel "
-              "(C01_complete_generate: any n >= 1 workers, end-of-stream generator; via C01_no_abort_no_drop and the invariants 'nothing is cancelled / "
-              "closed while a worker runs', 'a returned worker found the generator exhausted', 'the consumer leaves only after the pipe is closed and "
-              "drained'); it is stated "
+              "C01_complete (un-aborted terminated run delivers a permutation of the input) is now a THEOREM for every construct family - Map / "
+              "Transform.ProcessParallel, Iterator.ProcessParallel, ParallelBuffer, Buffer, Chain & co., BufferedChannel, MergeIterators, GenerateParallel, "
+              "Split - for every worker count, buffer size, input and interleaving (C01_complete = C01_complete_statement under the explicit side "
+              "conditions complete_ok: at least one worker / output, one input per MergeIterators goroutine, GenerateParallel's generator ending with "
+              "the end-of-stream signal - the failure-ending one is refuted), via C01_no_abort_no_drop and per-family invariants ('nothing is cancelled / "
+              "closed while a sender runs', 'whoever returned found its input exhausted', 'the consumer leaves only after the pipe is closed and drained'). "
+              "Historically it was stated "
               "(C01_complete_statement) for the multi-worker ones, where it is reduced to 'no explicit drop happened' (C01_complete_partial) and "
               "checked by executing the model on every harness case (dropped = [] and delivered ~ input under vm_compute). The tie to /repo is "
               "outcome-level (multiset/order of real runs vs. what the model allows), because the property quantifies over schedules that cannot "
